@@ -9,10 +9,9 @@
   roots, reported boxes). Where `Rectangle::points` would saturate (`u32 -> i32`, `i32` overflow of
   `top_left + size`) statements carry the explicit decidable guard `Rect.InRange`.
 -/
-import EG.Lemmas.AdaptersCroppedIter
-import EG.Lemmas.TargetRectIndex
+import EG.Lemmas.AdaptersStack
 namespace EG.C03
-open EG EG.Rect
+open EG EG.Rect EG.Tgt
 
 /-! ### The cropping colour iterator -/
 
@@ -26,6 +25,22 @@ theorem cropped_iter_toList (cs : List Color) (size : Sz) (cropArea : Rect) :
         (cs.drop (((CropIt.cropOf size cropArea).tl.y.toNat + j) * size.w
           + (CropIt.cropOf size cropArea).tl.x.toNat)).take (CropIt.cropOf size cropArea).size.w) :=
   croppedList_eq_spec cs size cropArea
+
+/-- The `as usize` casts of the crop's top-left corner in `Cropped::new` never see a negative
+value. -/
+theorem cropped_iter_casts_safe (size : Sz) (cropArea : Rect) :
+    0 ≤ (CropIt.cropOf size cropArea).tl.x ∧ 0 ≤ (CropIt.cropOf size cropArea).tl.y :=
+  CropIt.cropOf_tl_nonneg size cropArea
+
+/-- `row_skip = size.width.saturating_sub(crop.width)`: the crop is at most as wide as the area
+unless it is zero-height (then nothing is yielded). The exception is real — `intersection`
+returns a zero-sized operand unchanged — and was a `u32` underflow panic of checked builds before
+the repair 0e0d76a (witness in corpus/C03.ops). -/
+theorem cropped_iter_row_skip (size : Sz) (cropArea : Rect) :
+    (CropIt.cropOf size cropArea).size.w ≤ size.w ∨ (CropIt.cropOf size cropArea).size.h = 0 :=
+  CropIt.cropOf_w_le size cropArea
+
+example : (CropIt.cropOf ⟨1, 1⟩ ⟨⟨0, 0⟩, ⟨2, 0⟩⟩).size.w = 2 := by decide
 
 /-! ### The trait defaults set exactly the row-major points of the area paired with the stream -/
 
@@ -78,5 +93,285 @@ theorem default_fill_order (B area : Rect) (cs : List Color) :
     ((Call.lowerDefault B (.fillContiguous area cs)).map Prod.fst).Pairwise Pt.rowMajorLt := by
   show ((area.points.zip cs).map Prod.fst).Pairwise Pt.rowMajorLt
   exact (points_rowMajor area).sublist (map_fst_zip_sublist _ _)
+
+/-! ### Meaning of calls, range guards
+
+`c.sem T p` is the colour the call `c` (documented meaning) last writes to `p` on a target that
+reports box `T` (`none`: `p` not touched). `r.Ok` = the rectangle is zero sized or `Rect.InRange`
+(no `u32 -> i32` saturation, no `i32` overflow of `top_left + size`); `c.Ok T` asks that of the
+area of the call (of `T` for `clear`). These guards are decidable. -/
+
+example : (Call.fillContiguous ⟨⟨-1, 2⟩, ⟨3, 2⟩⟩ [1, 2, 3, 4]).Ok ⟨⟨0, 0⟩, ⟨4, 4⟩⟩ := by decide
+example : (Call.fillContiguous ⟨⟨-1, 2⟩, ⟨3, 2⟩⟩ [7, 8, 9, 10]).sem ⟨⟨0, 0⟩, ⟨4, 4⟩⟩ ⟨-1, 3⟩ = some 10 := by
+  decide
+
+/-! ### Clipped -/
+
+/-- Reported box of a clipped target: exactly the common points of clip area and parent box. -/
+theorem clipped_bbox (clip B : Rect) (p : Pt) :
+    ((Adapter.clipped clip).bbox B).contains p = true ↔ (clip.contains p = true ∧ B.contains p = true) :=
+  Rect.mem_intersection clip B p
+
+/-- **Clipped, per call** (`draw_iter`, `fill_contiguous` with full, short and long streams — both
+the `intersection == area` shortcut and the re-cut colour stream —, `fill_solid`, `clear`): what
+the parent receives means, at every point `q`: inside `clip ∩ parent box` exactly what the call
+means, outside nothing. The only guard is on the call itself (its area is empty or in `i32`
+range); clipping never leaves the range (`Adapter.clipped_lower_ok`). -/
+theorem clipped_exact (clip B : Rect) (c : Call) (h1 : c.Ok (clip.intersection B)) (q : Pt) :
+    ((Adapter.clipped clip).lower B c).sem B q =
+      if clip.contains q = true ∧ B.contains q = true then c.sem (clip.intersection B) q else none := by
+  have h2 := Adapter.clipped_lower_ok (clip.intersection B) B c h1
+  simp only [Adapter.lower] at h2 ⊢
+  rw [Adapter.clipped_sem _ _ _ h1 h2]
+  by_cases h : (clip.intersection B).contains q = true
+  · rw [if_pos h, if_pos ((Rect.mem_intersection clip B q).mp h)]
+  · rw [if_neg h, if_neg (fun h' => h ((Rect.mem_intersection clip B q).mpr h'))]
+
+example : (Call.fillContiguous ⟨⟨-1, 0⟩, ⟨3, 2⟩⟩ [1, 2, 3, 4]).Ok
+      ((Rect.mk ⟨0, 0⟩ ⟨2, 2⟩).intersection ⟨⟨-2, -2⟩, ⟨6, 5⟩⟩) := by decide
+
+/-- **No pixel outside `clip ∩ parent box` ever reaches the parent**: every write the parent is
+offered (list level, before the parent's own clipping; the same list for a `draw_iter`-only
+parent by `default_writes_eq_native`) lies in the clip area and in the parent's box. -/
+theorem clipped_nothing_outside (clip B : Rect) (c : Call) (h1 : c.Ok (clip.intersection B)) :
+    ∀ w ∈ ((Adapter.clipped clip).lower B c).lowerNative B,
+      clip.contains w.1 = true ∧ B.contains w.1 = true := by
+  intro w hw
+  exact (Rect.mem_intersection clip B w.1).mp
+    (Adapter.clipped_inside _ B c (Adapter.clipped_lower_ok (clip.intersection B) B c h1) w hw)
+
+theorem clipped_nothing_outside_default (clip B : Rect) (c : Call) (h1 : c.Ok (clip.intersection B)) :
+    ∀ w ∈ ((Adapter.clipped clip).lower B c).lowerDefault B,
+      clip.contains w.1 = true ∧ B.contains w.1 = true := by
+  rw [Call.lowerDefault_eq_lowerNative]; exact clipped_nothing_outside clip B c h1
+
+/-- Range guard for a history drawn through a clipped target: the parent's box and the areas of
+the calls are empty or in `i32` range (nothing is asked of the clip area). -/
+def ClippedOk (B : Rect) (calls : List Call) : Prop := B.Ok ∧ ∀ c ∈ calls, c.Ok B
+
+theorem ClippedOk.call_ok {clip B : Rect} {calls : List Call} (h : ClippedOk B calls) :
+    ∀ c ∈ calls, c.Ok (clip.intersection B) := by
+  intro c hc
+  have := h.2 c hc
+  cases c with
+  | clear col => exact Rect.ok_intersection_right clip B h.1
+  | _ => exact this
+
+/-- **Clipped, whole histories**: after any sequence of operations through the clipped target the
+parent's pixel map is, inside `clip ∩ parent box`, exactly the map the parent has after the same
+operations applied to it directly, and empty outside (parent with native fills). -/
+theorem clipped_history_exact (clip B : Rect) (calls : List Call) (h : ClippedOk B calls) (q : Pt) :
+    runNative B (calls.map ((Adapter.clipped clip).lower B)) q =
+      if clip.contains q = true ∧ B.contains q = true then runNative B calls q else none := by
+  have hR : (clip.intersection B).Ok := Rect.ok_intersection_right clip B h.1
+  have hs := stack_run_native B [Adapter.clipped clip] calls (by
+    intro c hc
+    exact ⟨h.call_ok c hc, Adapter.clipped_lower_ok _ B c (h.call_ok c hc)⟩) q
+  simp only [runStackNative, lowerStack] at hs
+  rw [hs]
+  simp only [stackXf, stackBox, Xf.act, Xf.comp, Xf.id, Adapter.xf, Adapter.bbox, Pt.sub_zero,
+    Bool.and_true]
+  by_cases hB : B.contains q = true
+  · by_cases hc : clip.contains q = true
+    · have hRq := (Rect.mem_intersection clip B q).mpr ⟨hc, hB⟩
+      simp only [hB, hc, hRq, ↓reduceIte, and_self]
+      have hq0 : q - (Pt.zero + Pt.zero) = q := by rw [Pt.ext_iff']; simp [Pt.zero]
+      rw [runNative_eq_runDirect, if_pos hB,
+        runDirect_box_irrelevant _ B calls _ hR h.1 (by rw [hq0, hRq, hB])]
+      rw [hq0]; simp
+    · have hRq : ¬ (clip.intersection B).contains q = true :=
+        fun h' => hc ((Rect.mem_intersection clip B q).mp h').1
+      simp [hB, hc, hRq]
+  · simp [hB]
+
+/-- The same for a parent that only implements `draw_iter` (trait defaults). -/
+theorem clipped_history_exact_default (clip B : Rect) (calls : List Call) (h : ClippedOk B calls)
+    (q : Pt) :
+    runDefault B (calls.map ((Adapter.clipped clip).lower B)) q =
+      if clip.contains q = true ∧ B.contains q = true then runDefault B calls q else none := by
+  rw [runDefault_eq_runNative, runDefault_eq_runNative]; exact clipped_history_exact clip B calls h q
+
+instance (B : Rect) (calls : List Call) : Decidable (ClippedOk B calls) := by
+  unfold ClippedOk; exact inferInstance
+
+example : ClippedOk ⟨⟨-2, -2⟩, ⟨6, 5⟩⟩
+    [.fillContiguous ⟨⟨-1, 0⟩, ⟨3, 2⟩⟩ [1, 2, 3, 4], .clear 9, .fillSolid ⟨⟨1, 1⟩, ⟨4, 4⟩⟩ 5,
+     .drawIter [(⟨5, 5⟩, 1), (⟨0, 0⟩, 2), (⟨0, 0⟩, 3)]] := by decide
+
+/-! ### Translated, cropped, colour converted -/
+
+/-- Reported box of a translated target: the parent's box shifted back by the offset. -/
+theorem translated_bbox (d : Pt) (B : Rect) (p : Pt) :
+    ((Adapter.translated d).bbox B).contains p = B.contains (p + d) := by
+  simp only [Adapter.bbox, Adapter.translate_contains]
+  congr 1; rw [Pt.ext_iff']; simp only [Pt.sub_x, Pt.sub_y, Pt.neg_x, Pt.neg_y, Pt.add_x, Pt.add_y]; omega
+
+theorem translated_bbox_eq (d : Pt) (B : Rect) :
+    (Adapter.translated d).bbox B = ⟨⟨B.tl.x - d.x, B.tl.y - d.y⟩, B.size⟩ := by
+  simp only [Adapter.bbox, Rect.translate, Rect.mk.injEq, and_true]
+  rw [Pt.ext_iff']; simp only [Pt.add_x, Pt.add_y, Pt.neg_x, Pt.neg_y]; omega
+
+/-- **Translated, per call**: the parent point `q` receives what the call means at `q - offset`
+(all four methods; `clear` clears the parent). -/
+theorem translated_exact (d : Pt) (B : Rect) (c : Call) (h1 : c.Ok ((Adapter.translated d).bbox B))
+    (h2 : ((Adapter.translated d).lower B c).Ok B) (q : Pt) :
+    ((Adapter.translated d).lower B c).sem B q = c.sem ((Adapter.translated d).bbox B) (q - d) :=
+  Adapter.translated_sem d B c h1 h2 q
+
+example : (Call.fillSolid ⟨⟨-1, 0⟩, ⟨3, 2⟩⟩ 4).Ok ((Adapter.translated ⟨5, -7⟩).bbox ⟨⟨1, 1⟩, ⟨6, 5⟩⟩) ∧
+    ((Adapter.translated ⟨5, -7⟩).lower ⟨⟨1, 1⟩, ⟨6, 5⟩⟩ (Call.fillSolid ⟨⟨-1, 0⟩, ⟨3, 2⟩⟩ 4)).Ok
+      ⟨⟨1, 1⟩, ⟨6, 5⟩⟩ := by decide
+
+/-- Reported box of a cropped target: the size of `area ∩ parent box`, at the origin. -/
+theorem cropped_bbox (area B : Rect) :
+    (Adapter.cropped area).bbox B = ⟨⟨0, 0⟩, (area.intersection B).size⟩ := rfl
+
+/-- **Cropped, per call**: the origin of the cropped target is the top-left corner of
+`area ∩ parent box`; drawing is shifted by it and (as documented) not clipped; `clear` fills the
+cropped target's box. -/
+theorem cropped_exact (area B : Rect) (c : Call) (h1 : c.Ok ((Adapter.cropped area).bbox B))
+    (h2 : ((Adapter.cropped area).lower B c).Ok B) (q : Pt) :
+    ((Adapter.cropped area).lower B c).sem B q =
+      c.sem ((Adapter.cropped area).bbox B) (q - (area.intersection B).tl) :=
+  Adapter.cropped_sem _ B c h1 h2 q
+
+example : (Call.clear 4).Ok ((Adapter.cropped ⟨⟨2, 2⟩, ⟨9, 9⟩⟩).bbox ⟨⟨1, 1⟩, ⟨6, 5⟩⟩) ∧
+    ((Adapter.cropped ⟨⟨2, 2⟩, ⟨9, 9⟩⟩).lower ⟨⟨1, 1⟩, ⟨6, 5⟩⟩ (Call.clear 4)).Ok ⟨⟨1, 1⟩, ⟨6, 5⟩⟩ := by
+  decide
+
+theorem converted_bbox (f : Color → Color) (B : Rect) : (Adapter.converted f).bbox B = B := rfl
+
+/-- **Colour converted, per call**: every colour that reaches the parent is `f` (the `Into`
+conversion) of the colour drawn, at the same point; nothing else changes. -/
+theorem converted_exact (f : Color → Color) (B : Rect) (c : Call) (h1 : c.Ok B) (q : Pt) :
+    ((Adapter.converted f).lower B c).sem B q = (c.sem B q).map f :=
+  Adapter.converted_sem f B c h1 q
+
+/-- ... and the colour stream handed to the parent is the element-wise image (every colour goes
+through the conversion exactly once, also those the parent ends up not using). -/
+theorem converted_stream (f : Color → Color) (B area : Rect) (cs : List Color) :
+    (Adapter.converted f).lower B (.fillContiguous area cs) = .fillContiguous area (cs.map f) := rfl
+
+/-! ### Nestings compose like the corresponding transformations -/
+
+/-- A transformation `x : Xf` = (reachable region `G` in parent coordinates, shift `d`, colour map
+`f`) acts on meanings by `x.act m q = if G q then (m (q - d)).map f else none`. The four adapters: -/
+theorem adapter_xf (B : Rect) (q : Pt) (m : Pt → Option Color) :
+    (∀ r, ((Adapter.clipped r).xf B).act m q =
+      if r.contains q = true ∧ B.contains q = true then m q else none) ∧
+    (∀ r, ((Adapter.cropped r).xf B).act m q = m (q - (r.intersection B).tl)) ∧
+    (∀ d, ((Adapter.translated d).xf B).act m q = m (q - d)) ∧
+    (∀ f, ((Adapter.converted f).xf B).act m q = (m q).map f) := by
+  refine ⟨?_, ?_, ?_, ?_⟩
+  · intro r
+    simp only [Adapter.xf, Xf.act, Pt.sub_zero]
+    by_cases h : (r.intersection B).contains q = true
+    · rw [if_pos h, if_pos ((Rect.mem_intersection r B q).mp h)]; simp
+    · rw [if_neg h, if_neg (fun h' => h ((Rect.mem_intersection r B q).mpr h'))]
+  · intro r; simp [Adapter.xf, Xf.act]
+  · intro d; simp [Adapter.xf, Xf.act]
+  · intro f; simp [Adapter.xf, Xf.act, Pt.sub_zero]
+
+/-- The transformation of a nesting is the composition, root-most adapter outermost: regions
+intersect (each expressed in root coordinates), shifts add, colour maps compose. -/
+theorem stack_xf_nil (B : Rect) : stackXf B [] = Xf.id := rfl
+theorem stack_xf_cons (B : Rect) (a : Adapter) (rest : Stack) :
+    stackXf B (a :: rest) = (a.xf B).comp (stackXf (a.bbox B) rest) := rfl
+theorem xf_comp_act (outer inner : Xf) (m : Pt → Option Color) (q : Pt) :
+    (outer.comp inner).act m q = outer.act (inner.act m) q := Xf.act_comp outer inner m q
+theorem xf_comp_fields (outer inner : Xf) (q : Pt) (c : Color) :
+    (outer.comp inner).G q = (outer.G q && inner.G (q - outer.d)) ∧
+    (outer.comp inner).d = outer.d + inner.d ∧
+    (outer.comp inner).f c = outer.f (inner.f c) := ⟨rfl, rfl, rfl⟩
+
+/-- The reported box of a nesting is obtained level by level. -/
+theorem stack_box_cons (B : Rect) (a : Adapter) (rest : Stack) :
+    stackBox B (a :: rest) = stackBox (a.bbox B) rest := rfl
+
+/-- A nesting built on top of a nesting is the composition of the two (boxes, lowered calls and
+transformations). -/
+theorem stack_append (B : Rect) (s1 s2 : Stack) :
+    stackXf B (s1 ++ s2) = (stackXf B s1).comp (stackXf (stackBox B s1) s2) ∧
+    stackBox B (s1 ++ s2) = stackBox (stackBox B s1) s2 ∧
+    ∀ c, lowerStack B (s1 ++ s2) c = lowerStack B s1 (lowerStack (stackBox B s1) s2 c) :=
+  ⟨stackXf_append B s1 s2, stackBox_append B s1 s2, lowerStack_append B s1 s2⟩
+
+/-- Instances of the composition law: two translations add, -/
+theorem translated_translated (B : Rect) (d1 d2 : Pt) (m : Pt → Option Color) (q : Pt) :
+    (stackXf B [.translated d1, .translated d2]).act m q = m (q - (d1 + d2)) := by
+  simp only [stackXf, Xf.act_comp, Xf.act_id, (adapter_xf _ _ _).2.2.1]
+  rw [Pt.sub_add]
+
+/-- two clip areas intersect (with each other and the root's box), -/
+theorem clipped_clipped (B r1 r2 : Rect) (m : Pt → Option Color) (q : Pt) :
+    (stackXf B [.clipped r1, .clipped r2]).act m q =
+      if r1.contains q = true ∧ r2.contains q = true ∧ B.contains q = true then m q else none := by
+  simp only [stackXf, Xf.act_comp, Xf.act_id, (adapter_xf _ _ _).1, Adapter.bbox]
+  by_cases h1 : r1.contains q = true <;> by_cases hB : B.contains q = true <;>
+    by_cases h2 : r2.contains q = true <;> simp [h1, h2, hB, Rect.mem_intersection]
+
+/-- a clip area given in translated coordinates is the translated region in root coordinates, -/
+theorem translated_clipped (B r : Rect) (d : Pt) (m : Pt → Option Color) (q : Pt) :
+    (stackXf B [.translated d, .clipped r]).act m q =
+      if r.contains (q - d) = true ∧ B.contains q = true then m (q - d) else none := by
+  simp only [stackXf, Xf.act_comp, Xf.act_id, (adapter_xf _ _ _).1, (adapter_xf _ _ _).2.2.1]
+  have : ((Adapter.translated d).bbox B).contains (q - d) = B.contains q := by
+    rw [translated_bbox]; congr 1; rw [Pt.ext_iff']; simp only [Pt.add_x, Pt.add_y, Pt.sub_x, Pt.sub_y]; omega
+  rw [this]
+
+/-- and colour conversions compose, the root-most one applied last. -/
+theorem converted_converted (B : Rect) (f g : Color → Color) (m : Pt → Option Color) (q : Pt) :
+    (stackXf B [.converted f, .converted g]).act m q = (m q).map (fun c => f (g c)) := by
+  simp only [stackXf, Xf.act_comp, Xf.act_id, (adapter_xf _ _ _).2.2.2]
+  cases m q <;> rfl
+
+/-- **Nestings, per call** (any depth: induction over the stack): the call the root receives
+means the composed transformation of what the call means on the top of the nesting. -/
+theorem stack_exact (B : Rect) (s : Stack) (c : Call) (h : stackOk B s c) (q : Pt) :
+    (lowerStack B s c).sem B q = (stackXf B s).act (c.sem (stackBox B s)) q :=
+  stack_sem B s c h q
+
+/-- For nestings of clipped and colour-converted targets only (no coordinate shift) the guard of
+`stack_exact` reduces to the user's inputs: root box and call area empty or in `i32` range. -/
+theorem stack_guard_of_no_shift (B : Rect) (s : Stack) (c : Call)
+    (hs : ∀ a ∈ s, a.noShift = true) (hB : B.Ok) (hc : c.Ok B) : stackOk B s c :=
+  stackOk_of_noShift B s c hs hB hc
+
+example : (∀ a ∈ [Adapter.clipped ⟨⟨0, 0⟩, ⟨2, 2⟩⟩, Adapter.converted (fun c => c + 1)], a.noShift = true) := by
+  intro a ha; simp only [List.mem_cons, List.not_mem_nil, or_false] at ha
+  rcases ha with rfl | rfl <;> rfl
+
+/-- **Nestings, whole histories, both kinds of root**: the root's final pixel map is the composed
+transformation of the direct meaning of the history, cut to the root's box. -/
+theorem stack_history_exact (B : Rect) (s : Stack) (calls : List Call)
+    (h : ∀ c ∈ calls, stackOk B s c) (q : Pt) :
+    runStackNative B s calls q =
+      (if B.contains q = true then (stackXf B s).act (runDirect (stackBox B s) calls) q else none) ∧
+    runStackDefault B s calls q = runStackNative B s calls q := by
+  refine ⟨stack_run_native B s calls h q, ?_⟩
+  rw [stack_run_default B s calls h q, stack_run_native B s calls h q]
+
+/-- **Nestings never offer the root a pixel outside the accumulated region** (which, below a
+clipped adapter, is inside that adapter's clip area and its parent's box). -/
+theorem stack_nothing_outside (B : Rect) (s : Stack) (c : Call) (h : stackOk B s c) :
+    ∀ w ∈ (lowerStack B s c).lowerNative B, (stackXf B s).G w.1 = true :=
+  stack_inside B s c h
+
+/-- depth 3: clipped under cropped under translated+converted, a partly clipped short stream -/
+example : stackOk ⟨⟨-3, -2⟩, ⟨7, 5⟩⟩
+    [.clipped ⟨⟨-1, -1⟩, ⟨3, 3⟩⟩, .cropped ⟨⟨0, -2⟩, ⟨5, 3⟩⟩, .translated ⟨1, 0⟩]
+    (.fillContiguous ⟨⟨-2, -1⟩, ⟨4, 3⟩⟩ [1, 2, 3, 4, 5, 6, 7]) := by decide
+
+/-- ... on which the composed transformation really clips, shifts and keeps the pairing
+(kernel-evaluated instance of `stack_exact`). -/
+example : (lowerStack ⟨⟨-3, -2⟩, ⟨7, 5⟩⟩
+    [.clipped ⟨⟨-1, -1⟩, ⟨3, 3⟩⟩, .cropped ⟨⟨0, -2⟩, ⟨5, 3⟩⟩, .translated ⟨1, 0⟩]
+    (.fillContiguous ⟨⟨-2, -1⟩, ⟨4, 3⟩⟩ [1, 2, 3, 4, 5, 6, 7])) =
+    .fillContiguous ⟨⟨-1, -1⟩, ⟨3, 2⟩⟩ [5, 6, 7] := by decide
+
+-- [V] colour streams are finite lists; arbitrary `IntoIterator`s (infinite like `repeat`, non-fused, side-effecting) and the laziness of the real iterator chain (how many colours are pulled, and when) are outside the model: carried by correspondence + oracle only
+-- [V] the colour map `f` of a colour-converted target is the real `Into` impl between the two colour types (the correspondence runs own colour types with `c -> 3c+k+1` and the real `BinaryColor -> Rgb565`; the other embedded-graphics conversions are C13's subject): carried by correspondence + oracle only
+-- [V] `i32` overflow of translated coordinates / `u32 -> i32` saturation (excluded by the decidable guards `Rect.Ok`, `Call.Ok`, `stackOk`; totality at display scale is C08's subject): carried by correspondence + oracle only
+-- [V] error propagation through the adapters (`Result` of the parent call is returned unchanged; C04's subject): carried by correspondence + oracle only
 
 end EG.C03
